@@ -187,7 +187,7 @@ func classify(r interface{}) *PanicInfo {
 }
 
 // MaxResults caps how many nodes are drained from an iterator.
-const MaxResults = 20000
+const MaxResults = 100000
 
 // Drain runs an iterator to exhaustion and returns the node IDs.
 func Drain(it *xpath.NodeIterator) (ids []int, capped bool) {
